@@ -88,6 +88,13 @@ def run(report: Report, tier, seed):
     for b in sdiff[:2]:
         report.violation(Violation(key=f"shared:{b['job'][0]}:{b['job'][1]}", what=f"sharing template {b['job']}: {b['differs']}"[:400], replay={"shared": b["job"]}, confirmed_native=True))
 
+    # blocks that hold only comments (an arm / body consisting of nothing but Comment(...)): executed against their meaning
+    from . import c18 as _c18
+    cej = [(k, v) for k in _c18.COMMENT_ONLY_KINDS for v in (5, 6, 8, 10)]
+    cer = [_c18.comment_only_exec(j) for j in cej]
+    cebad = [r for r in cer if r["problem"]]
+    report.bounded.append(Bounded(function="compileTeal on loops whose arm / body is nothing but a Comment", contract="the program logs what its description says",
+                                  bound=f"{len(_c18.COMMENT_ONLY_KINDS)} shapes x versions 5, 6, 8, 10, with and without the comment", cases=2 * len(cer), distinct_nontrivial=len(cer), failures=len(cebad)))
     from . import opsugar
     on, obad = opsugar.check()
     report.ob(Ob(id="O1.28/operator-overloads-build-the-documented-expression", function="pyteal.ast.expr.Expr (__lt__ ... __rshift__, And, Or)", kind="E",
@@ -113,8 +120,12 @@ def run(report: Report, tier, seed):
         return None
 
     def search(fn, obs):
-        if "flattenBlocks" in fn:
-            return {"input": {"block_list": ff[0]}, "what": ff[0]["what"]} if ff else None
+        if "flattenBlocks" in fn or "c01_flatten" in fn:
+            if ff:
+                return {"input": {"block_list": ff[0]}, "what": ff[0]["what"]}
+            if cebad:
+                return {"input": {"comment_only": cebad[0]["job"]}, "what": cebad[0]["problem"]}
+            return None
         if "sortBlocks" in fn or "c01_sort" in fn:
             return {"input": {"block_list": sf[0]}, "what": sf[0]["what"]} if sf else None
         if "substring" in fn:
@@ -127,6 +138,8 @@ def run(report: Report, tier, seed):
 
     report.settle_undecided(search)
     report.settle_refuted(search)
+    if cebad and not any(o.status == "refuted" for o in report.obs):
+        report.violation(Violation(key=f"comment-only:{cebad[0]['job'][0]}", what=cebad[0]["problem"][:400], replay={"input": {"comment_only": cebad[0]["job"]}, "teal": cebad[0].get("teal")}, confirmed_native=True))
     for name, lst in (("flattenBlocks", ff), ("sortBlocks", sf)):
         if lst and not any(name in v.what for v in report.violations):
             report.violation(Violation(key=f"ir:{name}:{lst[0]['kinds']}:{lst[0]['succ']}", what=f"{name}: {lst[0]['what']}", replay={"input": {"block_list": lst[0]}}, confirmed_native=True))
@@ -145,6 +158,11 @@ def replay(data):
         print(out)
         return 1 if out["differs"] else 0
     nat = r.get("native") or r
+    if (nat.get("input") or {}).get("comment_only"):
+        from . import c18 as _c18
+        out = _c18.comment_only_exec(tuple(nat["input"]["comment_only"]))
+        print(out["problem"])
+        return 1 if out["problem"] else 0
     if (nat.get("input") or {}).get("o34"):
         from . import opt_native
         w = opt_native.o34_witness(nat["input"]["o34"])
